@@ -47,7 +47,10 @@ type RequestContext struct {
 	upstreamCookies map[string]string
 	err             error
 
+	// the following properties are created lazy and cached
+
 	savedBody any
+	hmdlReq   *heimdall.Request
 	outputs   map[string]any
 }
 
@@ -100,12 +103,16 @@ func canonicalizeHeaders(headers map[string]string) map[string]string {
 }
 
 func (r *RequestContext) Request() *heimdall.Request {
-	return &heimdall.Request{
-		RequestFunctions:  r,
-		Method:            r.reqMethod,
-		URL:               &heimdall.URL{URL: *r.reqURL},
-		ClientIPAddresses: r.ips,
+	if r.hmdlReq == nil {
+		r.hmdlReq = &heimdall.Request{
+			RequestFunctions:  r,
+			Method:            r.reqMethod,
+			URL:               &heimdall.URL{URL: *r.reqURL},
+			ClientIPAddresses: r.ips,
+		}
 	}
+
+	return r.hmdlReq
 }
 
 func (r *RequestContext) Headers() map[string]string { return r.reqHeaders }
